@@ -41,6 +41,7 @@ Profile GetProfile(const std::string& name, bool thorough) {
     p.gen.features |= F_POOLS | F_CONSOLE;
   } else if (name == "C07") {
     p.pm_interrupt = 350; p.pm_crash = 300; p.pm_torn = 150; p.pm_cmd_fail = 30;
+    p.enumerate_faults = thorough;
   } else if (name == "C16") {
     p.pm_cmd_fail = 150; p.gen.features |= F_RSP | F_HOSTILE_NAMES;
   } else if (name == "C20") {
@@ -575,10 +576,52 @@ struct Driver {
     rr.stats.small_shape = b;
   }
 
+  // C07 thorough: one build of the history is killed at *every* syscall index
+  // (and torn inside every file write), each time in a forked world followed by a
+  // recovery build.
+  bool enumerated = false;
+  void EnumerateKills(const InvPlan& base) {
+    enumerated = true;
+    size_t mark = tape.Mark(base.stream);
+    World probe = w.Fork();
+    probe.label = "probe";
+    RunStats scratch; std::vector<Violation> vs;
+    probe.viol = &vs; probe.stats = &scratch;
+    InvPlan pp = base; pp.record_sys = true;
+    InvRecord pr = probe.RunInvocation(pp);
+    tape.Rewind(base.stream, mark);
+    if (pr.res.end != ProcResult::kExit || pr.spawns.empty()) return;
+    auto kinds = pr.res.sys_kinds;
+    if (kinds.size() > 600) return;
+    Note("enumerate kills: " + std::to_string(kinds.size()) + " syscalls");
+    for (auto& kv : kinds) {
+      for (int variant = 0; variant < (kv.second == 'w' ? 3 : 1); variant++) {
+        World f = w.Fork();
+        f.label = "kill@" + std::to_string(kv.first);
+        InvPlan p = base;
+        p.fail.clear(); p.on_signal = 0; p.editor = false;
+        if (variant == 0) p.fp.crash_at = kv.first; else { p.fp.torn_at = kv.first; p.fp.torn_keep = variant == 1 ? 1 : 0x7fffffff; }
+        p.fp.orphans_finish = (kv.first + variant) % 2 == 0;
+        size_t m2 = tape.Mark(base.stream);
+        InvRecord r = f.RunInvocation(p);
+        tape.Rewind(base.stream, m2);
+        rr.stats.n["enumerated_kills"]++;
+        if (r.res.end != ProcResult::kCrashed) continue;
+        // recovery in the same forked world
+        World saved = w;   // CheckRecovery forks from `w`
+        w = f;
+        w.viol = &rr.violations; w.stats = &rr.stats;
+        CheckRecovery(r);
+        w = saved;
+      }
+    }
+  }
+
   void DoBuild() {
     // (K15 can delete the manifest; everything after that only repeats it)
     if (!w.k.Exists("build.ninja")) { dead = true; return; }
     InvPlan p = MakeBuildPlan();
+    if (prof.enumerate_faults && !enumerated && builds_done > 0 && H(2) == 0) EnumerateKills(p);
     PlanProcessFaults(p);
     TwinBeforeBuild();
     known_before = w.reported_hidden;
